@@ -116,3 +116,13 @@ def ensemble_stretch_constants(vc):
     vc.ensures("stretch_parameter_stored", S.cmp("==", vc.attr(s, "alpha"), alpha))
     vc.ensures("lower_end_is_sqrt_2_over_alpha", S.And(S.cmp(">=", lo, 0), S.cmp("==", S.mul(S.mul(lo, lo), alpha), 2)))
     vc.ensures("upper_end_is_sqrt_2_alpha", S.And(S.cmp(">=", hi, 0), S.cmp("==", S.mul(hi, hi), S.mul(2, alpha))))
+
+
+# each chain run under parallel tempering: the exchange is itself a Metropolis-Hastings move (swap contract) and what a chain
+# holds after an exchange must be its new point's log-density at its OWN temperature (worker contracts) -- otherwise every
+# later accept/reject decision of that chain compares against the wrong value.  The C08 contracts, checked here as well.
+from contracts.c08_tempering import swap as _swap, worker_update_position as _wup, worker_send_position as _wsp, tempering_native as _tn
+contract("C01", "tempering_swap", native=False, replay_with="tempering_native")(_swap)
+contract("C01", "tempering_worker_update_position", native=False, replay_with="tempering_native")(_wup)
+contract("C01", "tempering_worker_send_position", native=False, replay_with="tempering_native")(_wsp)
+bounded("C01", "tempering_native", native_runs=3)(_tn)
